@@ -60,8 +60,8 @@ fn engine_shard(id: &str, tier: &str, seed: u64, replay: Option<&serde_json::Val
             let e2 = checks_c03::shard_run("C11", tier, seed, replay, shard);
             out.merge(e2);
         }
-        if id == "C01" && out.found.is_empty() && replay.map(|r| r["replay"]["origin"] == "e2").unwrap_or(true) {
-            let e2 = checks_c03::shard_run("C01", tier, seed, replay, shard);
+        if (id == "C01" || id == "C02") && out.found.is_empty() && replay.map(|r| r["replay"]["origin"] == "e2").unwrap_or(true) {
+            let e2 = checks_c03::shard_run(id, tier, seed, replay, shard);
             out.merge(e2);
         }
         if id == "C08" && out.found.is_empty() && replay.map(|r| r["replay"]["origin"] == "e2").unwrap_or(true) {
